@@ -2,6 +2,7 @@ import LZ4V.Judge.Rec
 import LZ4V.Spec.BlockFast
 import LZ4V.Gen.Consts
 import LZ4V.Gen.Funcs
+import LZ4V.Model.Fast
 /-!
 # Judge for block-compressor records (op 1)
 
@@ -53,6 +54,21 @@ def judgeBlock (r : Rec) : Verdict := Id.run do
         v := { v with fails := ("crosscheck", "array spec decoder disagrees with list specification") :: v.fails }
   else
     v := { v with tags := ["ret.zero"] }
+  -- the model of the fast compressor (Model/Fast.lean, proved lossless for every hash function) must produce the very same bytes:
+  -- entries LZ4_compress_default / LZ4_compress_fast / LZ4_compress_fast_extState (fresh state)
+  if entry ≤ 2 && n ≤ 400000 then
+    let accel : Int := if entry == 0 then 1 else r.int 1
+    let capN : Nat := if cap < 0 then 0 else cap.toNat
+    match LZ4V.Model.Fast.compressFast src.data accel capN bound.toNat, decide (ret > 0) with
+    | some blk, true =>
+      if blk != out.toList then
+        v := { v with fails := ("model_fast_output_differs", s!"n={n} accel={accel} cap={cap}: model block {blk.length} bytes, real {out.size} bytes" ++
+                 (match (List.range (min blk.length out.size)).find? (fun i => blk.getD i 0 != out.get! i) with | some i => s!", first difference at byte {i}" | none => "")) :: v.fails }
+      v := { v with tags := "fastmodel.same" :: v.tags }
+    | some blk, false =>
+      if ret == 0 then v := { v with fails := ("model_fast_output_differs", s!"n={n} accel={accel} cap={cap}: model succeeds with {blk.length} bytes, real returns 0") :: v.fails }
+    | none, true => v := { v with fails := ("model_fast_output_differs", s!"n={n} accel={accel} cap={cap}: model returns 0, real returns {ret}") :: v.fails }
+    | none, false => v := { v with tags := "fastmodel.same_zero" :: v.tags }
   return v
 
 end LZ4V.Judge
